@@ -303,7 +303,7 @@ impl<R: Read, TSpec> TagIterator<R, TSpec>
                 let path = <TSpec>::get_path_by_id(tag_id);
                 if path.iter().all(|p| matches!(p, PathPart::Id(_))) {
                     //We only know the current path if we read a tag that is non-global
-                    self.tag_stack = path.iter().map(|id| {
+                    let mut implied_parents: Vec<ProcessingTag<TSpec>> = path.iter().map(|id| {
                         match id {
                             PathPart::Id(id) => {
                                 ProcessingTag { 
@@ -316,6 +316,9 @@ impl<R: Read, TSpec> TagIterator<R, TSpec>
                             PathPart::Global(_) => unreachable!()
                         }
                     }).collect();
+                    // Any (global) masters opened before the document position was known remain open inside the implied parents
+                    implied_parents.append(&mut self.tag_stack);
+                    self.tag_stack = implied_parents;
                     self.has_determined_doc_path = true;
                 }
             }
